@@ -286,7 +286,7 @@ _TIE = ("Lean 4 theorems about a hand-written model + correspondence harness: th
         "property's L1 predicate on the implementation's own observations")
 MANIFEST_TEXT = {
     "C13": dict(
-        text="Kernel-checked theorems: the 16-bit record framing round-trips for every list of records that save accepts; save returns an error exactly when the header or an entry exceeds 65535 bytes; for every reachable log whose entries the access controller accepts, save either errors or produces bytes from which a fresh store rebuilds a log with the same entries, Values() and heads. A snapshot written WHILE the log grows (SaveSnapshot takes no lock and reads heads, length, entries in that order) is proved to load back as the state at the first read; with the reads reordered it would be written without error and refused by the loader (proved). The pinned tree's silent length wrap-around (record of 65536 bytes written with length 0) is a proved witness replayed on the real store before the fix: commits (F9a-c). The Go port's loader does not build the log from the records: ipfslog.NewFromJSON ignores the entries it is given and fetches the ancestry of the recorded heads out of IPFS (read in the dependency; noted by a sub-agent); the model has both readings and the theorems are proved for both (loadFetching: on a node holding the blocks the fetch returns the log, and then the fresh store rebuilds the same entries, Values() and heads; a snapshot written while the log grew loads as the state at the first read with no proviso). The snapshot family saves on real stores (payloads around the 64 KiB limit) and loads into brand-new instances over the same block store. The snapshot route hands Join only entries of this log that Join accepts (proved; finding F47, fix: commit - the loader fetched the log again through every link and joined all of it: a snapshot saved without error that could not be loaded, or a foreign entry back as a head: decide-checked witness; the forge family now saves and loads snapshots and runs under this property's reconstruct predicate; the loader's three tests are regenerated from the Go text). A snapshot loaded on a store that already holds the newest entries brings what lies below them (finding F62, fix: commit - the 'held' step of Load was missing in the snapshot path; `restartsnap pre=N` in the snapshot family; the step is part of the regenerated order).",
+        text="Kernel-checked theorems: the 16-bit record framing round-trips for every list of records that save accepts; save returns an error exactly when the header or an entry exceeds 65535 bytes; for every reachable log whose entries the access controller accepts, save either errors or produces bytes from which a fresh store rebuilds a log with the same entries, Values() and heads. A snapshot written WHILE the log grows (SaveSnapshot takes no lock and reads heads, length, entries in that order) is proved to load back as the state at the first read; with the reads reordered it would be written without error and refused by the loader (proved). The pinned tree's silent length wrap-around (record of 65536 bytes written with length 0) is a proved witness replayed on the real store before the fix: commits (F9a-c). The Go port's loader does not build the log from the records: ipfslog.NewFromJSON ignores the entries it is given and fetches the ancestry of the recorded heads out of IPFS (read in the dependency; noted by a sub-agent); the model has both readings and the theorems are proved for both (loadFetching: on a node holding the blocks the fetch returns the log, and then the fresh store rebuilds the same entries, Values() and heads; a snapshot written while the log grew loads as the state at the first read with no proviso). The snapshot family saves on real stores (payloads around the 64 KiB limit) and loads into brand-new instances over the same block store. The snapshot route hands Join only entries of this log that Join accepts (proved; finding F47, fix: commit - the loader fetched the log again through every link and joined all of it: a snapshot saved without error that could not be loaded, or a foreign entry back as a head: decide-checked witness; the forge family now saves and loads snapshots and runs under this property's reconstruct predicate; the loader's three tests are regenerated from the Go text). A snapshot loaded on a store that already holds the newest entries brings what lies below them (finding F62, fix: commit - the 'held' step of Load was missing in the snapshot path; `restartsnap pre=N` in the snapshot family; the step is part of the regenerated order). A quarter of the snapshot scenarios save while a fetch is IN FLIGHT (held at its block): the save must come back within 20 s.",
         note="Trusted: Lean kernel + standard axioms; the JSON codec of one entry is a parameter with a left inverse (sampled by the harness); the unixfs file layer is a fake that stores files whole; the fetcher's contract (it returns the ancestry of the heads it is given, from blocks the node holds) is a hypothesis of the fetching-loader theorems - a snapshot is NOT self-contained in this port: a node without the blocks needs the network to load it.",
         technique="Lean 4 proof (codec round-trip by induction; rebuilt log joins to the same entries/order/heads) with differential correspondence on real save/load"),
     "C14": dict(
@@ -294,7 +294,7 @@ MANIFEST_TEXT = {
         note="Trusted: Lean kernel + standard axioms; injectivity of the manifest CID (hash + dag-cbor) is a hypothesis; the Create/Open model is hand-written (its abstractions are listed at the top of Model/OpenCreate.lean) and run against the real instance on every create/open of the address family; only the default ipfs access controller is modelled.",
         technique="Lean 4 proof (path cleaning lemmas, parse/print inverse, injectivity) with differential correspondence over adversarial names"),
     "C15": dict(
-        text="Kernel-checked theorems: the effective limit (n <= 0 falls back to MaxHistory, non-positive means all); Join(size) panics exactly when size exceeds the length and otherwise keeps the newest size entries in order; for EVERY chain length and EVERY limit, Load(n) on a fresh store with one cached head lists exactly the newest min(n,T) entries oldest first (all for n <= 0) even when the fetcher over-fetches; loading one head never panics, for EVERY log the store may hold (closed or with holes, fully or partially loaded), every fetched log and every amount: the merge asks for no trim and the trim is only asked for once the listing is longer than the amount (finding F30, fix: commit - the estimate-based trim panicked on logs with holes: decide-checked witness, reproduced by Load(n) on an open, partially loaded store). The pinned tree's panic (n > total) and emptied log (n = 0) are decide-checked and were replayed on the real store before the fix: commit. The limit family loads real multi-writer logs with every boundary limit, lets partially loaded stores replicate, write and load again ('load more'), and checks count, order, newest and most-recent-n on the listing — after a 'load more' too: an unlimited Load of a cached head into ANY log satisfying the log invariant lists what the log held plus everything fetched (proved; finding F36, fix: commit — Join, handed the whole fetched log, stopped at the held head and merged nothing below it: decide-checked witness, replayed on the real store). Entries Load leaves out do not count against the limit: the refetch loop ends, for every fetcher that returns at most what it is asked for, on a fetch that keeps at least n entries or is the whole log (proved; finding F57, fix: commit - one fetch of length n kept fewer: decide-checked witness; the limit family adds a hand-made entry whose parent belongs to another log). The refetch loop does not walk through a foreign log again and reports an entry once per Load (termination and 'enough' proved for a fetcher that changes from round to round and a limit that at least doubles: F67, fix: commit - growing by what was left out alone read a run of refused entries quadratically; finding F63, fix: commit - found by a reviewer of the repairs, demonstrated by its test under corpus/C15: the harness's foreign logs are too short to show the quadratic re-reporting).",
+        text="Kernel-checked theorems: the effective limit (n <= 0 falls back to MaxHistory, non-positive means all); Join(size) panics exactly when size exceeds the length and otherwise keeps the newest size entries in order; for EVERY chain length and EVERY limit, Load(n) on a fresh store with one cached head lists exactly the newest min(n,T) entries oldest first (all for n <= 0) even when the fetcher over-fetches; loading one head never panics, for EVERY log the store may hold (closed or with holes, fully or partially loaded), every fetched log and every amount: the merge asks for no trim and the trim is only asked for once the listing is longer than the amount (finding F30, fix: commit - the estimate-based trim panicked on logs with holes: decide-checked witness, reproduced by Load(n) on an open, partially loaded store). The pinned tree's panic (n > total) and emptied log (n = 0) are decide-checked and were replayed on the real store before the fix: commit. The limit family loads real multi-writer logs with every boundary limit, lets partially loaded stores replicate, write and load again ('load more'), and checks count, order, newest and most-recent-n on the listing — after a 'load more' too: an unlimited Load of a cached head into ANY log satisfying the log invariant lists what the log held plus everything fetched (proved; finding F36, fix: commit — Join, handed the whole fetched log, stopped at the held head and merged nothing below it: decide-checked witness, replayed on the real store). Entries Load leaves out do not count against the limit: the refetch loop ends, for every fetcher that returns at most what it is asked for, on a fetch that keeps at least n entries or is the whole log (proved; finding F57, fix: commit - one fetch of length n kept fewer: decide-checked witness; the limit family adds a hand-made entry whose parent belongs to another log). The refetch loop does not walk through a foreign log again and reports an entry once per Load (a quarter of the limit scenarios build their stores with the maximum-history option - through store constructors of the harness's own, the only way in - and the driver's Load model takes it; termination and 'enough' proved for a fetcher that changes from round to round and a limit that at least doubles: F67, fix: commit - growing by what was left out alone read a run of refused entries quadratically; finding F63, fix: commit - found by a reviewer of the repairs, demonstrated by its test under corpus/C15: the harness's foreign logs are too short to show the quadratic re-reporting).",
         note="Partial: for several cached heads the count/order/newest statement is checked on the implementation and on decide-checked instances, not proved in general; the bounded fetcher is a parameter with a stated contract.",
         technique="Lean 4 proof (trim/Join size lemmas, chain induction) with differential correspondence over boundary limits"),
     "C16": dict(
